@@ -84,6 +84,16 @@ def run(chk, replay_path):
         chk.states = chk.transitions = chk.replayed = 1
         chk.sample(dict(kind="replayed witness", fresh=bytes(obs[0].get("fresh", [])).decode("latin-1")))
         return
+    # design level: greedy wrapping keeps every word and stays inside the column (and the shipped off-by-one does not)
+    r = vc.run_tlc("options/UsageLayout", "options/MC_UsageLayout.cfg", timeout=900)
+    chk.add_tlc("UsageLayout", r)
+    if not r["ok"]:
+        chk.model_violation("UsageLayout", r)
+        return
+    r2 = vc.run_tlc("options/UsageLayout", "options/MC_UsageLayout_offbyone.cfg", timeout=600)
+    if r2["violated"] != "WidthRule":
+        raise vc.Infra("negative control: the off-by-one wrapping rule does not violate WidthRule in the model (%s)" % r2["violated"])
+    chk.notes.append("negative control: the wrapping rule 'word.size() + 1 > column' violates WidthRule in UsageLayout.tla")
     rng = random.Random("%s/C15" % chk.seed)
     cases = systematic() if chk.thorough() else systematic()[::6]
     cases += [gen_decl(rng, k) for k in range(1200 if chk.tier == "quick" else 12000)]
